@@ -38,6 +38,39 @@ def main():
     old = embed.set_sizes([BT, TS], 2, 2)
     okey, oval = fam[0] == 'O', fam[1] == 'O'
     mism, counts = [], dict(rejected_loads=0, cycles=0)
+    if fam == 'fs':
+        # the fs family's own memory handling: the compact byte form (toBytes / toString: all 2-byte keys, then all 6-byte
+        # values) loaded by fromBytes / fromString into fresh buckets and into buckets that already own smaller or larger
+        # vectors; what is read back must be exactly what went in (on the sanitizer build: no access outside the vectors)
+        def fk(i):
+            return bytes([97 + i // 26, 97 + i % 26])
+
+        def fv(i):
+            return bytes([65 + (i * 7) % 26]) * 5 + bytes([48 + i % 10])
+        for n in (0, 1, 2, 3, 4, 5, 7, 8, 9, 16, 17, 33, 64, 100):
+            src = BU({fk(i): fv(i) for i in range(n)})
+            raw = src.toBytes()
+            if raw != src.toString() or len(raw) != 8 * n:
+                mism.append(dict(fam=fam, kind='fs-byte-form', entries=n, real=len(raw)))
+            for prior in (None, 1, 3, 40, 120):
+                for loader in ('fromBytes', 'fromString'):
+                    b = BU() if prior is None else BU({fk(200 + i): fv(i) for i in range(prior)})
+                    getattr(b, loader)(raw)
+                    counts['rejected_loads'] += 1
+                    if list(b.items()) != list(src.items()) or len(b) != n:
+                        mism.append(dict(fam=fam, kind='fs-fromBytes-contents', entries=n, prior=prior, loader=loader))
+                    # ... and the bucket is an ordinary bucket afterwards
+                    for i in range(n, n + 6):
+                        b[fk(i)] = fv(i)
+                    del b[fk(n)]
+                    if [k for k in b.keys()] != [fk(i) for i in range(n + 6) if i != n] or any(b[fk(i)] != fv(i) for i in range(n + 6) if i != n):
+                        mism.append(dict(fam=fam, kind='fs-after-fromBytes', entries=n, prior=prior, loader=loader))
+                    if b.toBytes() != BU({fk(i): fv(i) for i in range(n + 6) if i != n}).toBytes():
+                        mism.append(dict(fam=fam, kind='fs-toBytes-after-fromBytes', entries=n, prior=prior, loader=loader))
+                    del b
+        embed.restore_sizes(old)
+        json.dump(dict(counts=counts, mismatches=mism[:40]), open(sys.argv[2], 'w'), default=repr)
+        return
     pool = [Obj(i) for i in range(40)]
 
     def key(i):
